@@ -69,7 +69,7 @@ def evaluate(tag, apply, runs, baseline, threads):
         caught = {}
         for p in PROPS:
             n = runs // 4 if p == "C04" else runs
-            lat = 0 if p == "C04" else 107648
+            lat = 0 if p == "C04" else 116384
             r = sh(f"{root}/sim/target/release/cozy-sim run --prop {p} --runs {n} --seed 1 --threads {threads} --known {SRC}/known_findings.txt --replay-dir {root}/replays --lattice {lat}", cwd=root)
             if r.returncode == 1:
                 cls = [l.split("class:")[1].strip() for l in r.stdout.splitlines() if l.strip().startswith("class:")]
